@@ -120,4 +120,17 @@ PROPS = {
                    {"driver": "utf8", "stage": "bytes", "flavour": "plain-O2", "budget": {"thorough": 4}, "budget2": {"thorough": 4}, "tiers": ("thorough",)},
                    {"driver": "utf8", "stage": "faults", "flavour": "asan"}],
     },
+    "C17": {
+        "level": "exploration",
+        "assumptions": TRUST + ["'all interleavings' is sampled: ThreadSanitizer is happens-before based, so an unsynchronised access pair is reported whenever both accesses execute in a run, regardless of timing; API-pair coverage is reported"],
+        "stages": [{"driver": "thr", "stage": "tsan", "flavour": "tsan", "shards": 4},
+                   {"driver": "thr", "stage": "digest", "flavour": "plain-O2", "shards": 2},
+                   {"driver": "thr", "stage": "segment", "flavour": "pic-so", "shards": 4}],
+    },
+    "C18": {
+        "level": "exploration",
+        "assumptions": TRUST,
+        "stages": [{"driver": "ro", "stage": "", "flavour": "plain-O0"}, {"driver": "ro", "stage": "", "flavour": "plain-O2"},
+                   {"driver": "thr", "stage": "readers", "flavour": "tsan", "shards": 4}],
+    },
 }
